@@ -18,7 +18,9 @@ def gen_consts(v):
         'PID_DMX_START_ADDRESS PID_IDENTIFY_DEVICE PID_QUEUED_MESSAGE PID_TEST_DATA '
         'MAX_RDM_STRING_LENGTH ZERO_FOOTPRINT_DMX_ADDRESS ALL_SENSORS SENSOR_RECORDED_VALUE '
         'SENSOR_RECORDED_RANGE_VALUES SENSOR_RECORDED_UNSUPPORTED SENSOR_RECORDED_RANGE_UNSUPPORTED '
-        'MAX_RDM_TEST_DATA_PATTERN_LENGTH RDM_VERSION_1_0').split()]
+        'MAX_RDM_TEST_DATA_PATTERN_LENGTH RDM_VERSION_1_0 PID_STATUS_MESSAGES PID_DEVICE_MODEL_DESCRIPTION '
+        'PID_MANUFACTURER_LABEL PID_DEVICE_LABEL PID_DMX_PERSONALITY PID_DMX_PERSONALITY_DESCRIPTION '
+        'STATUS_GET_LAST_MESSAGE MAX_QUEUED_MESSAGE_COUNT OLA_ACK_TIMER_MODEL PRODUCT_CATEGORY_TEST').split()]
     ents += [(n, R + 'RDMCommand::' + n) for n in (
         'DISCOVER_COMMAND DISCOVER_COMMAND_RESPONSE GET_COMMAND GET_COMMAND_RESPONSE '
         'SET_COMMAND SET_COMMAND_RESPONSE').split()]
@@ -26,7 +28,7 @@ def gen_consts(v):
              ('DMX_UNIVERSE_SIZE', 'ola::DMX_UNIVERSE_SIZE'),
              ('MAX_PDL', R + 'RDMCommandSerializer::MAX_PARAM_DATA_LENGTH')]
     return v.gen_consts_cpp(ID, ['ola/Constants.h', 'ola/rdm/RDMCommand.h', 'ola/rdm/RDMCommandSerializer.h',
-                                 'ola/rdm/RDMEnums.h', 'ola/rdm/RDMResponseCodes.h', 'ola/rdm/UID.h'],
+                                 'ola/rdm/RDMEnums.h', 'ola/rdm/OpenLightingEnums.h', 'ola/rdm/RDMResponseCodes.h', 'ola/rdm/UID.h'],
                             ents, os.path.join(v.VERIF, 'props', ID, 'coq', 'Gen.v'))
 
 # ------------------------------------------------------------------ case generation
@@ -114,6 +116,95 @@ def sweep_req(rng, kind, pid, cc, sub, dname, n=None):
     return req(DESTS[dname], sub, cc, pid, data, tn=rng.randrange(256),
                src=rng.choice([SRC, 1, (0x7a70 << 32) | 5]), port=rng.choice([0, 1, 255]))
 
+SRCS = [SRC, 1, (0x7a70 << 32) | 5, (0x4744 << 32) | 2]
+
+def retag(rng, reqs):
+    """give every request of a sequence a transaction number and a controller UID that differ from
+    those of its neighbours, so a reply built from an earlier request is always visible to chk_13"""
+    t0, s0 = rng.randrange(256), rng.randrange(len(SRCS))
+    out = []
+    for i, r in enumerate(reqs):
+        f = r.split(',')
+        f[0] = str(SRCS[(s0 + i) % len(SRCS)])
+        f[2] = str((t0 + 37 * i) % 256)
+        out.append(','.join(f))
+    return out
+
+def seq_case(rng, kind, reqs):
+    return 'sweep %s %d %s' % (kind, OWN, '/'.join(retag(rng, reqs)))
+
+def gen_acktimer(rng, tier):
+    """ack-timer histories: SETs answered with ACK_TIMER, the harness' virtual clock advances 150 ms per
+    request (queued messages mature after 400 ms), GET QUEUED_MESSAGE with every status type incl.
+    STATUS_GET_LAST_MESSAGE while further messages are (or are not) queued"""
+    def step():
+        k = rng.random()
+        if k < 0.22:
+            return req(OWN, 0, SET, 0x1000, [rng.randrange(2)])
+        if k < 0.40:
+            return req(OWN, 0, SET, 0xf0, [0, rng.randrange(1, 200)])
+        if k < 0.75:
+            return req(OWN, 0, GET, 0x20, [rng.choice([1, 1, 1, 2, 3, 4, 4, 0, 5])])
+        if k < 0.80:
+            return req(OWN, 0, GET, 0x20, rdata(rng, rng.choice([0, 2])))
+        if k < 0.90:
+            return req(OWN, 0, GET, rng.choice([0xf0, 0x1000, 0x60, 0xe0]), [])
+        return sweep_req(rng, 'acktimer', rng.choice([0x20, 0xf0, 0x1000, 0xe0]), rng.choice([GET, SET]),
+                         rng.choice([0, 0, 1, 0xffff]), rng.choice(['own', 'own', 'bcast', 'vcast', 'other']),
+                         rng.choice([0, 1, 2]))
+    # the minimal shape: two ACK_TIMER SETs, wait, pop one message, ask for the last message again
+    yield seq_case(rng, 'acktimer', [req(OWN, 0, SET, 0x1000, [1]), req(OWN, 0, SET, 0xf0, [0, 7]),
+                                     req(OWN, 0, GET, 0x1000, []), req(OWN, 0, GET, 0xf0, []), req(OWN, 0, GET, 0x60, []),
+                                     req(OWN, 0, GET, 0x20, [4]), req(OWN, 0, GET, 0x20, [1]),
+                                     req(OWN, 0, GET, 0x20, [1]), req(OWN, 0, GET, 0x20, [4]), req(OWN, 0, GET, 0x20, [1]),
+                                     req(OWN, 0, GET, 0x20, [4]), req(OWN, 0, GET, 0x20, [1])])
+    for _ in range(60 if tier == 'quick' else 1500):
+        yield seq_case(rng, 'acktimer', [step() for _ in range(rng.choice([12, 24, 48]))])
+
+def _repo_file(rel):
+    repo = _os.environ.get('VERIF_REPO', '/repo')
+    p = _os.path.join(repo, rel)
+    return p if _os.path.exists(p) else _os.path.join('/repo', rel)
+
+def acktimer_strings():
+    """the string constants the ack-timer label GETs return (configuration of the model)"""
+    ver = _re.search(r'#define VERSION "([^"]*)"', open(_repo_file('config.h')).read()).group(1)
+    manu = _re.search(r'OLA_MANUFACTURER_LABEL\[\]\s*=\s*"([^"]*)"',
+                      open(_repo_file('common/rdm/OpenLightingEnums.cpp')).read()).group(1)
+    return ['OLA Ack Timer Responder', manu, 'Ack Timer Responder', 'OLA Version ' + ver]
+
+def gen_ackt(rng, tier):
+    """full functional correspondence of AckTimerResponder with AckTimer.v: histories with explicit clock
+    steps around the 400 ms boundary"""
+    strs = ' '.join(hx([ord(c) for c in s]) for s in acktimer_strings())
+    pids = [0x20, 0x50, 0x60, 0x80, 0x81, 0x82, 0xc0, 0xe0, 0xe1, 0xf0, 0x1000, 0x30, 0x1001]
+    def step():
+        dt = rng.choice([0, 0, 1, 100, 199, 200, 201, 399, 400, 401, 1000])
+        k = rng.random()
+        if k < 0.2:
+            r = req(OWN, 0, SET, 0x1000, [rng.choice([0, 1, 1, 2])])
+        elif k < 0.37:
+            r = req(OWN, 0, SET, 0xf0, [rng.choice([0, 0, 1, 2]), rng.randrange(256)])
+        elif k < 0.45:
+            r = req(OWN, 0, SET, 0xe0, [rng.randrange(6)])
+        elif k < 0.75:
+            r = req(OWN, 0, GET, 0x20, [rng.choice([1, 1, 1, 2, 3, 4, 4, 0, 5])])
+        else:
+            pid = rng.choice(pids)
+            n = rng.choice([0, 0, 0, 1, 2, 3])
+            r = req(DESTS[rng.choice(['own'] * 8 + sorted(DESTS))], rng.choice([0, 0, 0, 0, 1, 0xffff]),
+                    rng.choice([GET, GET, SET, DISC]), pid, rdata(rng, n))
+        return dt, r
+    for _ in range(150 if tier == 'quick' else 4000):
+        steps = [step() for _ in range(rng.choice([6, 16, 40]))]
+        reqs = retag(rng, [r for _, r in steps])
+        yield 'ackt %d %s %s' % (OWN, strs, '/'.join('%d:%s' % (dt, r) for (dt, _), r in zip(steps, reqs)))
+    # more than 255 queued messages: the message count saturates
+    steps = [(0, req(OWN, 0, SET, 0x1000, [i & 1])) for i in range(300)] + [(500, req(OWN, 0, GET, 0x60, []))] + \
+            [(0, req(OWN, 0, GET, 0x20, [4])) for _ in range(50)]
+    reqs = retag(rng, [r for _, r in steps])
+    yield 'ackt %d %s %s' % (OWN, strs, '/'.join('%d:%s' % (dt, r) for (dt, _), r in zip(steps, reqs)))
+
 def chunks(l, n):
     for i in range(0, len(l), n):
         yield l[i:i + n]
@@ -145,7 +236,7 @@ def gen_sweeps(rng, tier):
                         reqs.append(sweep_req(rng, kind, pid, cc, rng.choice([0, 0, 0, 1, 0xffff] if kind == 'dimmer' else [0]), 'own', n))
         rng.shuffle(reqs)
         for ch in chunks(reqs, 48):
-            yield 'sweep %s %d %s' % (kind, OWN, '/'.join(ch))
+            yield seq_case(rng, kind, ch)
         # stateful walks: mostly SETs of supported PIDs with plausible values, unicast
         for _ in range(12 if quick else 150):
             seq = []
@@ -155,7 +246,7 @@ def gen_sweeps(rng, tier):
                 sub = rng.choice([0, 0, 1, 2, 0xffff] if kind == 'dimmer' else [0, 0, 0, 0, 1, 0xffff])
                 dn = rng.choice(['own'] * 6 + ['bcast', 'vcast', 'other'])
                 seq.append(sweep_req(rng, kind, pid, cc, sub, dn, rng.choice([0, 1, 1, 2, 2, 3, 4, 4, 5, 8, 9, 10])))
-            yield 'sweep %s %d %s' % (kind, OWN, '/'.join(seq))
+            yield seq_case(rng, kind, seq)
         if not quick:
             # every PID 0x0000-0xffff, every command class; sub-device and destination drawn per request
             allr = []
@@ -165,7 +256,7 @@ def gen_sweeps(rng, tier):
                                           rng.choice([0, 0, 1, 2, 4, 231])))
             rng.shuffle(allr)
             for ch in chunks(allr, 512):
-                yield 'sweep %s %d %s' % (kind, OWN, '/'.join(ch))
+                yield seq_case(rng, kind, ch)
     # known-finding classes (each also listed in known_findings)
     yield 'sweep dimmer %d %s' % (OWN, '/'.join([req(OWN, 1, SET, 0xe0, [2], tn=1), req(OWN, 0xffff, SET, 0xf0, [2, 0], tn=2, flag=True),
                                                  req(OWN, 2, GET, 0xf0, [], tn=3)]))
@@ -273,7 +364,7 @@ def gen_help(rng, tier):
             yield 'help 23 %s %d -' % (R(rdata(rng, n, False)), rng.choice(mcs))
 
 def gen_cases(rng, tier):
-    for g in (gen_disp, gen_fan, gen_help, gen_sweeps):
+    for g in (gen_disp, gen_fan, gen_help, gen_ackt, gen_acktimer, gen_sweeps):
         for c in g(rng, tier):
             yield c
 
@@ -282,6 +373,10 @@ def nontrivial(payload, md):
     if op == 'sweep':
         # a judged sequence containing at least one SET (snapshot pair) and one GET
         return md.get('chk') == 'ok' and ',48,' in payload and ',32,' in payload
+    if op == 'ackt':
+        # a history in which an ACK_TIMER was sent and a queued message was later delivered
+        t = md.get('t', '')
+        return ',1,' in t and ',49,' in t
     r = md.get('r', '')
     if op == 'help':
         return r not in ('none', 'oob') and r.split(',')[3:4] == ['0']
@@ -294,7 +389,9 @@ RULE = ('disp: scripted handler table on the real ResponderOps x PID {placeholde
         'scripted sub-devices (status x {no response, ACK, NACK}); help: every modelled ResponderHelper at lengths w-1/w/w+1/0/231 '
         'and the value boundaries of each comparison; sweep: every built-in responder, all supported PIDs + neighbours/boundary '
         'PIDs (thorough: all 65536) x class x sub-device x destination x parameter lengths, in sequences of 40-512 requests with a '
-        'snapshot of all GET-able parameters around every SET, every reply judged by the extracted chk_sweep. '
+        'snapshot of all GET-able parameters around every SET, every reply judged by the extracted chk_sweep, transaction number '
+        'and controller UID different on neighbouring requests; ackt: ack-timer histories with explicit clock steps around 400 ms '
+        '(SET->ACK_TIMER, queued-message delivery, STATUS_GET_LAST_MESSAGE, >255 queued), full replies compared with AckTimer.v. '
         'non-trivial = helper ACK / one completion carrying a response / a fully conformant sequence containing GETs and SETs; '
         'distinct = distinct model output line')
 ASSUMPTIONS = ['the completion callback passed to a responder is not NULL (HandleRDMRequest returns without completing otherwise)',
@@ -310,19 +407,25 @@ TRUSTED = ['modelled rather than verified: ResponderOps<T>::HandleRDMRequest/Han
            'judged by the Coq-proved checker (chk_13 + dispatch-class agreement), not a theorem',
            'the harness talks to the extracted checker through a pipe (model_driver --serve); PID tables are read from the live '
            'ResponderOps::m_handlers maps; snapshots are 60-bit FNV digests of all GET replies',
-           'slot info/description/default-value and device-info helpers are modelled and correspondence-checked but have no theorem; '
-           'FrequencyModulationSetting descriptions and the network helpers are not modelled (swept only)']
+           'AckTimerResponder (AckTimer.v): all 13 handlers, QueueAnyNewMessages, QueuedMessageCount, ResponseFromQueuedMessage; the clock '
+           'is interposed (ld --wrap=clock_gettime) and advanced by the harness, the label strings are read from config.h / '
+           'OpenLightingEnums.cpp by the generator and handed to the model as configuration',
+           'FrequencyModulationSetting descriptions and the network helpers are not modelled (swept only); slot-table theorems assume '
+           'the table fits one response (<=46 slots for SLOT_INFO, <=77 for DEFAULT_SLOT_VALUE) and that the active personality exists']
 LEVEL_TEXT = ('PARTIAL by design. Coq theorems, for all requests and EVERY handler behaviour, about an executable model of '
               'ResponderOps dispatch (completion exactly once; broadcast/vendorcast: status only, no response; foreign UID: '
               'RDM_TIMEOUT, state untouched; unicast GET/SET: one COMPLETED_OK reply with src/dst swapped, same transaction number, '
               'matching class, legal type, <=231 bytes provided the handlers return conformant responses), of the response builders, '
-              'of the SubDeviceDispatcher fan-out (exactly one completion, tracker never used after deletion; with fix 01) and of the '
-              'generic ResponderHelper parsers (never read outside the parameter data, ACK or NACK with a legal reason for every '
-              'length, state unchanged on NACK), all tied to the C++ by differential correspondence. The ~150 per-PID handler bodies '
-              'of the eight built-in responders are NOT modelled: for them the evidence is a sweep in which every real reply '
-              '(with before/after snapshots of all GET-able parameters) is judged by the extracted instance checker chk_13, which '
-              'is proved to imply the property text (c13_chk_sound) -- testing judged by a proved checker, not a theorem. '
-              'Two known findings are excluded narrowly (GET TEST_DATA > 231 bytes; mixed ACK/NACK of a SET fanned out to all sub-devices).')
+              'of the SubDeviceDispatcher fan-out (exactly one completion, tracker never used after deletion, first sub-device\'s '
+              'reply, resulting state) and of the generic ResponderHelper parsers (never read outside the parameter data, ACK or NACK '
+              'with a legal reason for every length, state unchanged on NACK), all tied to the C++ by differential correspondence. '
+              'For ONE responder, the ack-timer responder, the handler hypothesis is discharged: its whole queue/timer state machine '
+              'is modelled (full-reply correspondence) and c13_acktimer proves every reply conformant after every history. '
+              'The per-PID handler bodies of the other seven responders (~140) are NOT modelled: for them the evidence is a sweep in '
+              'which every real reply (with before/after snapshots of all GET-able parameters) is judged by the extracted instance '
+              'checker chk_13, proved to imply the property text (c13_chk_sound) -- testing judged by a proved checker, not a theorem. '
+              'Two known findings are excluded narrowly (GET TEST_DATA > 231 bytes, refuted/partial theorems; mixed ACK/NACK of a SET '
+              'fanned out to all sub-devices, c13_fanout_mixed_refuted / c13_fanout_partial).')
 LEVEL_NOTE = ('Trusted: Coq kernel, extraction (ExtrOcamlBasic), OCaml/C++ glue incl. the pipe to the checker service, generator '
               'coverage; model = code is validated by differential testing, not proved; handler conformance (hypothesis '
               'handlers_conform of c13_dispatch) is validated by the sweep only; volatile readings are excluded from snapshots; '
